@@ -368,6 +368,7 @@ class Interp:
         self.fn_stack = []
         self._const_cache = {}
         self._mut_args = []
+        self.atom_vals = {}  # atom key -> operand values (for cmp / eq / contains atoms)
 
     # -- context helpers ------------------------------------------------------
     def cur_cond(self, since=0):
@@ -728,7 +729,7 @@ class Interp:
             cl, cr = self.concrete(l), self.concrete(r)
             if isinstance(cl, int) and isinstance(cr, int):
                 return BoolV({"<": cl < cr, "<=": cl <= cr, ">": cl > cr, ">=": cl >= cr}[op])
-            return BoolV(atom("cmp", op, core(l).r(), core(r).r()))
+            return BoolV(self._cmp(op, l, r))
         return OpV(op, [l, r])
 
     def ev_Tup(self, n, fr):
@@ -1028,7 +1029,9 @@ class Interp:
                 if isinstance(c0, CallV) and "RangeInclusive::new" in c0.callee and len(c0.args) == 2:
                     lo, hi = self.concrete(c0.args[0]), self.concrete(c0.args[1])
                     return BoolV(atom("inrange", core(args[1]).r(), lo, hi, True))
-                return BoolV(atom("contains", c0.r(), core(args[1]).r()))
+                a_ = atom("contains", c0.r(), core(args[1]).r())
+                self.atom_vals[a_[1]] = (args[0], args[1])
+                return BoolV(a_)
             if last in ("any", "all") and len(args) == 2 and isinstance(core(args[1]), ClosureV):
                 cl = core(args[1])
                 rnode = n.get("recv") or {}
@@ -1039,13 +1042,13 @@ class Interp:
                 body = self.to_formula(self.call_closure(cl, [Sel(c0, "[]")]))
                 return BoolV(atom(last, c0.r(), F.show(body)))
             if last == "le" and len(args) == 2:
-                return BoolV(atom("cmp", "<=", core(args[0]).r(), core(args[1]).r()))
+                return BoolV(self._cmp("<=", args[0], args[1]))
             if last == "lt" and len(args) == 2:
-                return BoolV(atom("cmp", "<", core(args[0]).r(), core(args[1]).r()))
+                return BoolV(self._cmp("<", args[0], args[1]))
             if last == "ge" and len(args) == 2:
-                return BoolV(atom("cmp", ">=", core(args[0]).r(), core(args[1]).r()))
+                return BoolV(self._cmp(">=", args[0], args[1]))
             if last == "gt" and len(args) == 2:
-                return BoolV(atom("cmp", ">", core(args[0]).r(), core(args[1]).r()))
+                return BoolV(self._cmp(">", args[0], args[1]))
             if last in ("eq", "ne") and len(args) == 2:
                 f = self.eq_formula(args[0], args[1])
                 return BoolV(f if last == "eq" else Not(f))
@@ -1105,6 +1108,11 @@ class Interp:
             if isinstance(a, WriterV):
                 self.emit(a.sink, {"t": "Opaque", "what": "call of %s" % callee, "sp": n.get("sp")})
         return CallV(inst or callee, args, n, inst)
+
+    def _cmp(self, op, l, r):
+        a_ = atom("cmp", op, core(l).r(), core(r).r())
+        self.atom_vals[a_[1]] = (l, r)
+        return a_
 
     def _some(self, c0):
         if isinstance(c0, StructV) and c0.variant:
